@@ -977,7 +977,12 @@ def _handle_upload_pack_head(
         proto.write_pkt_line(None)
 
     shallow_requested = (
-        depth not in (0, None) or shallow_since is not None or bool(shallow_exclude)
+        depth not in (0, None)
+        or shallow_since is not None
+        or bool(shallow_exclude)
+        # A v2 server answers with a shallow-info section whenever the
+        # request carries shallow lines, whether or not it deepens.
+        or (protocol_version == 2 and bool(walker_shallow))
     )
     shallow_read = False
     if shallow_requested and protocol_version != 2 and can_read is not None:
